@@ -168,7 +168,21 @@ def _zoo(prop, rec):
     return False, f"tucan = {s!r}"
 
 
+def _e1_derived(prop, rec):
+    from . import e1
+
+    n = rec["n"]
+    st = (tuple(rec["state"][0]), rec["state"][1])
+    g, gc, s, text = e1.pipeline(n, st)
+    root = {"s": s, "sig": e1.canon_signature(gc)}
+    vios = []
+    e1._derived(n, st, root, frozenset([prop]), vios, {"transitions": 0, "exec": 0})
+    hit = [v[1]["summary"] for v in vios if v[1].get("variant") == rec["variant"]]
+    return bool(hit), "; ".join(hit) or f"variant {rec['variant']} agrees with the molfile description ({s!r})"
+
+
 REPLAYERS = {
+    "e1-derived": _e1_derived,
     "e1-pair-differ": _pair_differ,
     "zoo": _zoo,
     "c14-hashseed": _c14,
